@@ -1,4 +1,5 @@
 import KoordVerif.Model.C10
+import KoordVerif.Model.C10Exec
 import KoordVerif.Generated.C10
 /-
 Tie lemmas: constants and one guard-order fact of /repo's current source (regenerated on every
@@ -60,5 +61,30 @@ theorem tie_round_dispatch :
       ["node", "nodeCPUUsage", "podMetrics", "podMetas", "nodeSLO.Spec.HostApplications", "hostAppMetrics",
        "*nodeSLO.Spec.ResourceUsedThresholdWithBE.CPUSuppressThresholdPercent",
        "nodeSLO.Spec.ResourceUsedThresholdWithBE.CPUSuppressMinPercent"] := by decide
+
+/-- which writes go through the executor's cache (model `codeShape`, theorems `quota_round_writes_target_regardless_of_cache`,
+    `quota_file_independent_of_cache`): the cpuset batch is cacheable, adjustByCfsQuota and its mirror recoverCFSQuotaIfNeed are
+    BOTH direct (same cacheability), and nothing else in the package writes through the executor. -/
+theorem tie_exec_shape :
+    KoordVerif.Generated.C10.executorCalls =
+      ["writeBECgroupsCPUSet:UpdateBatch(true)", "adjustByCfsQuota:Update(false)", "recoverCFSQuotaIfNeed:Update(false)"] ∧
+    KoordVerif.Generated.C10.otherExecutorCalls = 0 ∧
+    codeShape.cpusetCacheable = true ∧ codeShape.adjustQuotaCacheable = false ∧ codeShape.recoverQuotaCacheable = false := by decide
+
+/-- updateByCache: update(), return on the ignored error, return on any other error, and only then the single cache Set; the
+    direct update() never touches the cache (model `execWrite` with `codeShape.cacheOnIgnored = false`; theorems
+    `ignored_error_leaves_cache`, `late_cgroup_file_gets_target`, `rounds_keep_cache_truthful`). -/
+theorem tie_cache_set_after_write :
+    KoordVerif.Generated.C10.cacheSetAfterSuccessfulWriteOnly = true ∧ KoordVerif.Generated.C10.cacheSetCallsInUpdateByCache = 1 ∧
+    KoordVerif.Generated.C10.directUpdateTouchesCache = false ∧ codeShape.cacheOnIgnored = false := by decide
+
+/-- Update / UpdateBatch send a cacheable call to updateByCache and any other to update; needUpdate is true without an entry,
+    for another value and for an entry older than ResourceForceUpdateSeconds (60 by default; the harness ages entries by 61 s),
+    false otherwise (model `needUpdate`, `XFile.age`). -/
+theorem tie_exec_dispatch :
+    KoordVerif.Generated.C10.executorUpdateDispatch = "updateByCache|update" ∧
+    KoordVerif.Generated.C10.executorUpdateBatchDispatch = "updateByCache|update" ∧
+    KoordVerif.Generated.C10.needUpdateRules = "noentry:true;othervalue:true;stale:true;else:false" ∧
+    KoordVerif.Generated.C10.resourceForceUpdateSeconds = 60 := by decide
 
 end KoordVerif.C10
